@@ -44,7 +44,12 @@ const psReplTag = `json:"replaced,omitempty" x:"1"`
 
 func psSources(j int, pc psCase) (origin, partial, probe string) {
 	var o strings.Builder
-	fmt.Fprintf(&o, "// Package o%d holds the origin struct.\npackage o%d\n\nimport (\n\t\"fmt\"\n\t\"time\"\n\n\t\"example.com/ps/v\"\n)\n\nvar (\n\t_ fmt.Stringer\n\t_ time.Time\n\t_ v.V\n)\n\n", j, j)
+	// every third origin package has a package clause that differs from its directory name (importers name it explicitly)
+	clause := fmt.Sprintf("o%d", j)
+	if j%3 == 1 {
+		clause = fmt.Sprintf("model%d", j)
+	}
+	fmt.Fprintf(&o, "// Package %s holds the origin struct.\npackage %s\n\nimport (\n\t\"fmt\"\n\t\"time\"\n\n\t\"example.com/ps/v\"\n)\n\nvar (\n\t_ fmt.Stringer\n\t_ time.Time\n\t_ v.V\n)\n\n", clause, clause)
 	o.WriteString("// Sub2 is a nested origin struct.\ntype Sub2 struct {\n\tA int\n\tB string\n}\n\n// Scalar is not a struct.\ntype Scalar int\n\n// T is the origin.\ntype T struct {\n")
 	for i, k := range pc.Origin {
 		tag := psTagSrc[pc.Tags[i]]
@@ -59,7 +64,7 @@ func psSources(j int, pc psCase) (origin, partial, probe string) {
 	}
 	o.WriteString("}\n")
 	var p strings.Builder
-	fmt.Fprintf(&p, "// Package s%d holds the partial declaration.\npackage s%d\n\nimport \"example.com/ps/o%d\"\n\n", j, j, j)
+	fmt.Fprintf(&p, "// Package s%d holds the partial declaration.\npackage s%d\n\nimport o%d \"example.com/ps/o%d\"\n\n", j, j, j, j)
 	switch pc.ErrShape {
 	case "notStruct":
 		p.WriteString("// +gengo:partialstruct\ntype x int\n")
@@ -118,7 +123,7 @@ func psSources(j int, pc psCase) (origin, partial, probe string) {
 				repl = "new(Sub2)"
 			}
 		}
-		probe = fmt.Sprintf("package s%d\n\nimport \"example.com/ps/o%d\"\n\n// Probe hands the probe program the generated struct, the origin and the replacement type.\nfunc Probe() (partial, origin, replacement any) {\n\treturn new(X), new(o%d.T), %s\n}\n", j, j, j, repl)
+		probe = fmt.Sprintf("package s%d\n\nimport o%d \"example.com/ps/o%d\"\n\n// Probe hands the probe program the generated struct, the origin and the replacement type.\nfunc Probe() (partial, origin, replacement any) {\n\treturn new(X), new(o%d.T), %s\n}\n", j, j, j, j, repl)
 	}
 	return o.String(), p.String(), probe
 }
@@ -350,6 +355,32 @@ func psModule(from, to int, parsed []psCase, obsOf, concOf []map[string]any) err
 	for j := from; j < to; j++ {
 		if parsed[j].ErrShape == "none" {
 			patterns = append(patterns, fmt.Sprintf("./s%d", j))
+		}
+	}
+	// the judged generation is never the first one: an earlier version of every origin (one more field in front, the nested
+	// struct one field shorter) has been generated from before
+	if len(patterns) > 0 {
+		earlier := map[string]string{}
+		for j := from; j < to; j++ {
+			if parsed[j].ErrShape == "none" {
+				cur := files[fmt.Sprintf("o%d/o.go", j)]
+				e := strings.Replace(cur, "type T struct {\n", "type T struct {\n\t// F0 was dropped later.\n\tF0 bool\n", 1)
+				e = strings.Replace(e, "type Sub2 struct {\n\tA int\n\tB string\n}", "type Sub2 struct {\n\tA int\n\tB string\n\tC0 bool\n}", 1)
+				earlier[fmt.Sprintf("o%d/o.go", j)] = e
+			}
+		}
+		if err := core.WriteFiles(root, earlier); err != nil {
+			return err
+		}
+		if _, err := runGenerators(root, scratch, "earlier", []string{"partialstruct"}, patterns, false); err != nil {
+			return err
+		}
+		cur := map[string]string{}
+		for k := range earlier {
+			cur[k] = files[k]
+		}
+		if err := core.WriteFiles(root, cur); err != nil {
+			return err
 		}
 	}
 	needSingle := len(patterns) == 0
